@@ -1494,7 +1494,16 @@ def run(tier: str, replay: str | None = None):
                     if m is not None:
                         me = model_value(mt[4][0 if pol else 1])
                         if out != me:
-                            corr.append((i, f"{rname}:{pol}:narrow_e2e", sorted(map(str, out)), sorted(map(str, me))))
+                            # e.g. `a or b` where x is Never while b is visited: b's comparison is Never and
+                            # its constraint is lost (sound); such cases fall back to the extensional test
+                            hist["e2e_boolop_fallbacks"] = hist.get("e2e_boolop_fallbacks", 0) + 1
+                            ext_i = [py_member(o, tuple(out)) for o in pyobjs]
+                            ext_m = [py_member(o, tuple(m[0 if pol else 1])) for o in pyobjs]
+                            tst = tested_of(c)
+                            if not all(a == b or (a and not b and py_member(o, tst)) for a, b, o in zip(ext_i, ext_m, pyobjs)):
+                                corr.append((i, f"{rname}:{pol}:narrow_e2e", sorted(map(str, out)), sorted(map(str, me))))
+                        else:
+                            hist["e2e_boolop_exact"] = hist.get("e2e_boolop_exact", 0) + 1
                     continue
                 if rname == "e2e" and has_boolop(c):
                     # visit_BoolOp merges the scopes of its operands back into x (the value the
